@@ -669,10 +669,15 @@ def run(ck: Check):
     from bqskit.ir.circuit import Circuit  # noqa: F401 (import order)
     warnings.simplefilter('ignore')
     logging.disable(logging.WARNING)
+    import time
+    t0 = time.time()
     ck.lean_obligations()
+    ck.coverage['t_lean_s'] = round(time.time() - t0, 1)
     thorough = ck.tier == 'thorough'
     names = list(PASS_INFO)
-    ncases = 40000 if thorough else int(os.environ.get("C08_N", 1440))
+    if os.environ.get('C08_PASSES'):          # development aid
+        names = os.environ['C08_PASSES'].split(',')
+    ncases = 40000 if thorough else int(os.environ.get("C08_N", 800))
     if ck.replay_path:
         rp = json.loads(open(ck.replay_path).read())
         descs = [rp['replay']['desc']]
@@ -690,7 +695,9 @@ def run(ck: Check):
         ctx = mp.get_context('fork')
         with ctx.Pool(NWORKERS) as pool:
             results = [r for part in pool.imap(worker, jobs) for r in part]
+    ck.coverage['t_workload_s'] = round(time.time() - t0, 1)
     process(ck, results)
+    ck.coverage['t_total_s'] = round(time.time() - t0, 1)
     ck.coverage['rule'] = (
         'each case: seeded circuit -> real pass in-process -> (c, p, k) '
         'validated by the Lean validPartition (named clause must equal the '
